@@ -355,7 +355,30 @@ afterPublish:
 				}
 			}
 			reach := e.reachable(st, as)
-			if fc != nil && len(fc.Modifies) > 0 {
+			if fc != nil && len(fc.Modifies) == 1 && fc.Modifies[0] == "args" {
+				// "modifies args": the callee writes only the structures its pointer arguments point to. Heap
+				// structures handed by reference get fresh field values at that reference; caller locals reachable
+				// from the arguments are forgotten below; nothing else changes.
+				for i, a := range pvals {
+					if a == nil || a.T == "" || a.Sort != "Ref" || i >= len(cc.Args)+1 {
+						continue
+					}
+					pt, ok := a.Ty.Underlying().(*types.Pointer)
+					if !ok {
+						continue
+					}
+					if sty := structOf(pt.Elem()); sty != nil {
+						for fi := 0; fi < sty.NumFields(); fi++ {
+							hn, hs := e.d.heapField(pt.Elem(), fi)
+							h := e.heapGet(st, hn, hs)
+							nv := e.newVal(sty.Field(fi).Type(), "argf")
+							e.heapSet(st, hn, hs, fmt.Sprintf("(store %s %s %s)", h, a.T, e.term(nv)))
+						}
+					}
+				}
+				e.havocSet(st, reach)
+				e.publishExposed(st)
+			} else if fc != nil && len(fc.Modifies) > 0 {
 				e.havocHeapOnly(st, fc.Modifies)
 			} else {
 				if os.Getenv("GOVC_DEBUG") != "" {
@@ -377,6 +400,8 @@ afterPublish:
 				// the callee writes only slice elements / map entries: scalar and struct locals whose address
 				// escaped keep their value; local arrays (element storage) do not
 				e.havocLeakedArrays(st)
+			} else if fc != nil && len(fc.Modifies) == 1 && fc.Modifies[0] == "args" {
+				// only what the arguments reach (handled above)
 			} else {
 				e.havocLeaked(st)
 			}
